@@ -1,8 +1,102 @@
-import AlgoVerif.Model.LedgerCore
-namespace Props.C18
-open AlgoVerif.Model.LedgerCore
+/-
+C18 — Blocks neither create nor destroy Algos (the transaction groups of a block; modelled kinds).
 
-/-- placeholder while the pipeline is brought up; replaced by the property theorems -/
-theorem empty_group_noop (P : Params) (x : Ctx) (s : EvalState) : evalGroup P x s [] = .ok s := rfl
+`money P x l U` = Σ over the addresses of the duplicate-free list `U` of balance + pending rewards at the block's rewards level
+(`balWP`: balance + ⌊balance / RewardUnit⌋ · (level − RewardsBase); non-participating accounts: the balance), read through the
+layer `l` and its parents — the quantity `AccountTotals.All()` tracks.  All theorems hold for EVERY parameter set, context, state
+and transaction / group / block of the modelled kinds, and for every `U` containing the addresses the transactions name
+(sender, fee sink, receiver, close-to); accounts outside `U` are not touched.
+
+`block_conserves_partial` is named partial because a real block also withdraws rewards from the pool (`StartEvaluator`) and pays
+the proposer (`endOfBlock`), and may contain application calls / inner transactions / heartbeats / state proofs: none of these is
+in Model.LedgerCore.  The full statement is kept as `BlockConservesStatement`; the check's monitor watches it on the real code
+(sum over all accounts after every group, `AccountTotals.All()` at the end of every block, sum at the start of the next block).
+-/
+import AlgoVerif.Lemmas.LedgerCoreGroup
+namespace Props.C18
+open AlgoVerif.Model.LedgerCore AlgoVerif.Lemmas.LedgerCore
+
+/-- `move_conserves`: `roundCowState.Move` only moves money — including its zero-amount shortcut, `src = dst`, the rewards
+it credits on both sides (already counted as pending) and `autoHeartbeat`. -/
+theorem move_conserves (P : Params) (x : Ctx) (l l' : Layer) (src dst : Addr) (amt : Nat) (U : List Addr)
+    (hU : U.Nodup) (hs : src ∈ U) (hd : dst ∈ U) (h : move P x l src dst amt = .ok l') :
+    money P x l' U = money P x l U :=
+  AlgoVerif.Lemmas.LedgerCore.move_conserves hU hs hd h
+
+/-- `txn_conserves`: fee + effect of every modelled transaction kind (payment with close-to, keyreg incl. the switch to
+non-participating, asset config / transfer / freeze) only move money. -/
+theorem txn_conserves (P : Params) (x : Ctx) (l l' : Layer) (t : Txn) (ctr : Nat) (U : List Addr)
+    (hU : U.Nodup) (hA : ∀ a ∈ txnAddrs P t, a ∈ U) (h : applyTxn P x l t ctr = .ok l') :
+    money P x l' U = money P x l U :=
+  applyTxn_conserves hU hA h
+
+/-- the same for a whole `BlockEvaluator.transaction` (window, duplicate check, apply, min-balance check, addTx) -/
+theorem evalTxn_conserves (P : Params) (x : Ctx) (l l' : Layer) (g : List Txn) (t : Txn) (U : List Addr)
+    (hU : U.Nodup) (hA : ∀ a ∈ txnAddrs P t, a ∈ U) (h : evalTxn P x l g t = .ok l') :
+    money P x l' U = money P x l U :=
+  AlgoVerif.Lemmas.LedgerCore.evalTxn_conserves hU hA h
+
+/-- `group_conserves`: an accepted group (evaluated in a child, committed to the parent) keeps the total -/
+theorem group_conserves (P : Params) (x : Ctx) (s s' : EvalState) (g : List Txn) (U : List Addr)
+    (hU : U.Nodup) (hA : ∀ a ∈ groupAddrs P g, a ∈ U) (h : evalGroup P x s g = .ok s') :
+    money P x s'.top U = money P x s.top U := by
+  cases g with
+  | nil => cases h; rfl
+  | cons t r =>
+    obtain ⟨child, hc, rfl⟩ := evalGroup_ok (by simp) h
+    show money P x (commitToParent child s.top) U = _
+    rw [money_commit P x child s.top (evalGroupChild_wf hc), evalGroupChild_conserves hU hA hc]
+
+/-- a rejected group changes nothing at all (C19), in particular not the total -/
+theorem failed_group_conserves (P : Params) (x : Ctx) (s : EvalState) (g : List Txn) (gs : List (List Txn)) (e : GErr)
+    (h : evalGroup P x s g = .error e) : evalBlock P x s (g :: gs) = evalBlock P x s gs := by
+  show (match evalGroup P x s g with | .ok s' => evalBlock P x s' gs | .error _ => evalBlock P x s gs) = _
+  rw [h]
+
+/-- `block_conserves_partial`: any sequence of groups tried on an evaluator (accepted ones committed, failing ones dropped)
+keeps the total.  Induction over the groups. -/
+theorem block_conserves_partial (P : Params) (x : Ctx) (U : List Addr) (hU : U.Nodup) :
+    ∀ (gs : List (List Txn)) (s : EvalState), (∀ g ∈ gs, ∀ a ∈ groupAddrs P g, a ∈ U) →
+      money P x (evalBlock P x s gs).top U = money P x s.top U := by
+  intro gs
+  induction gs with
+  | nil => intro s _; rfl
+  | cons g r ih =>
+    intro s hA
+    have hr : ∀ g' ∈ r, ∀ a ∈ groupAddrs P g', a ∈ U := fun g' hg' => hA g' (List.mem_cons_of_mem _ hg')
+    show money P x (match evalGroup P x s g with | .ok s' => evalBlock P x s' r | .error _ => evalBlock P x s r).top U = _
+    cases hg : evalGroup P x s g with
+    | error e => exact ih s hr
+    | ok s' =>
+      simp only
+      rw [ih s' hr]
+      exact group_conserves P x s s' g U hU (hA g List.mem_cons_self) hg
+
+/-- The full property for a real block (NOT proved here; needs the models of StartEvaluator / endOfBlock / application calls):
+evaluating a whole block from the state at the end of the previous round — rewards withdrawal, all transaction kinds, proposer
+payout — keeps Σ balance-with-pending-rewards, the sum being taken at the old level before and at the new level after. -/
+def BlockConservesStatement : Prop :=
+  ∀ (evalWholeBlock : Params → Base → List (List Txn) → Option Base) (P P' : Params) (b b' : Base) (gs : List (List Txn))
+    (U : List Addr), U.Nodup → (∀ a, a ∉ U → b.acct a = Account.zero) →
+    evalWholeBlock P b gs = some b' →
+    (U.map (fun a => balWP P' (b'.acct a))).sum = (U.map (fun a => balWP P (b.acct a))).sum
+
+/-- pending rewards are counted: an account with pending rewards that pays has them credited, the total is unchanged -/
+theorem money_counts_pending (P : Params) (a a' : Account) (h : withRewards P a = .ok a') : a'.bal = balWP P a ∧ balWP P a' = balWP P a :=
+  ⟨(withRewards_ok h).1, balWP_withRewards h⟩
+
+/-! ### non-vacuity: a block of two groups (one fails) at a non-zero rewards level, universe {0,1,2,7} (0 = the zero address, named by absent receivers / close-to) -/
+
+def exP : Params := { level := 5, round := 3 }
+def exBase : Base := { accts := [(1, { bal := 5000000, rewardsBase := 2 }), (2, { bal := 300000 }), (7, { status := .notPart, bal := 100000 })] }
+def exPay (snd rcv amt note close : Nat) : Txn :=
+  { kind := .pay, sender := snd, fee := 1000, fv := 1, lv := 10, note := note, grp := 0, receiver := rcv, amount := amt, closeTo := close }
+
+example : [0, 1, 2, 7].Nodup := by decide
+example : ∀ g ∈ [[exPay 1 2 1000000 1 0], [exPay 2 1 9000000 2 0], [exPay 2 7 0 3 1]], ∀ a ∈ groupAddrs exP g, a ∈ [0, 1, 2, 7] := by decide
+/-- the total (with 5·3 pending on account 1) is 5400015 before and after; account 2 was closed into account 1 -/
+example : money exP ⟨[], exBase⟩ ({} : Layer) [0, 1, 2, 7] = 5400015 := by decide
+example : money exP ⟨[], exBase⟩ (evalBlock exP ⟨[], exBase⟩ {} [[exPay 1 2 1000000 1 0], [exPay 2 1 9000000 2 0], [exPay 2 7 0 3 1]]).top [0, 1, 2, 7] = 5400015 := by decide
+example : (evalBlock exP ⟨[], exBase⟩ {} [[exPay 1 2 1000000 1 0], [exPay 2 1 9000000 2 0], [exPay 2 7 0 3 1]]).payset.length = 2 := by decide
 
 end Props.C18
